@@ -12,10 +12,15 @@ import (
 func TestMain(m *testing.M) { stats.Main(m) }
 
 const simRule = "n real tendermint state machines + real vote counters behind a generator-owned network (deliver / duplicate / drop / " +
-	"fire timeout / Byzantine injection to a subset / late re-gossip; profiles uniform, splitbrain, lockstarve, laggard, partition); " +
-	"oracles after every action: agreement, validity, no double vote/proposal, lock rule and justification of every non-nil prevote/precommit/commit " +
+	"fire timeout incl. timeouts of heights already left / Byzantine injection to a subset / late re-gossip incl. messages of earlier heights; profiles uniform, " +
+	"splitbrain, lockstarve, laggard, partition, the skeletons placed at a drawn height of the run); 1-4 heights; application = chain (75%: a value is valid " +
+	"for one height on one parent, judged against the validator's own decided prefix) or height-independent predicate; faulty alphabet = own values, " +
+	"values proposed at this height, values decided / proposed-but-not-decided at EARLIER heights, values built for LATER heights, forks, old messages with " +
+	"the height rewritten; oracles after every action: agreement, validity (application asked for the committing validator's height and chain at commit, " +
+	"precommit and prevote time), no double vote/proposal, lock rule and justification of every non-nil prevote/precommit/commit " +
 	"from the validator's own delivered log, f+1 round skip. Non-trivial = (some correct validator entered a later round while locked, or a faulty " +
-	"validator's conflicting messages of one (kind,height,round) reached >= 2 correct validators) and >= 1 commit; distinct = SHA-256 of the executed schedule"
+	"validator's conflicting messages of one (kind,height,round) reached >= 2 correct validators, or a value of an earlier height named again by a faulty validator " +
+	"at a later height reached >= 2 correct validators) and >= 1 commit; distinct = SHA-256 of the executed schedule"
 
 func runSim(rt *rapid.T, c *stats.Case, bulk bool) {
 	s := newSim(rt, c, bulk)
@@ -73,6 +78,39 @@ func (s *sim) classify() {
 	if s.syncs > 0 {
 		c.Label("trigger-sync-seen")
 	}
+	if len(s.decided) >= 2 {
+		c.Label("heights-decided>=2")
+	}
+	if s.replaySpread {
+		c.Label("replay:value-of-earlier-height-reached>=2-correct")
+	}
+	if s.replayDecided {
+		c.Label("replay:value-DECIDED-at-earlier-height-reached>=2-correct")
+	}
+	if s.replayProposal {
+		c.Label("replay:value-of-earlier-height-proposed-by-legitimate-faulty-proposer-to>=2")
+	}
+	if s.futureValue {
+		c.Label("replay:value-built-for-later-height-delivered")
+	}
+	if s.oldHeightMsg {
+		c.Label("replay:verbatim-message-of-a-height-the-recipient-left")
+	}
+	if s.transposed {
+		c.Label("replay:old-message-resent-with-height-rewritten")
+	}
+	if s.staleTm {
+		c.Label("stale-timeout:fired-after-height-change")
+	}
+	if s.staleTmSameRound {
+		c.Label("stale-timeout:fired-after-height-change-in-same-round-number")
+	}
+	if s.askedOld {
+		c.Label("app:asked-about-well-formed-value-of-earlier-height")
+	}
+	if s.askedFuture {
+		c.Label("app:asked-about-well-formed-value-of-later-height")
+	}
 	hs := map[uint]struct{}{}
 	for _, i := range s.correct {
 		hs[uint(s.nodes[i].height)] = struct{}{}
@@ -86,17 +124,20 @@ func (s *sim) classify() {
 	if cm > 0 && s.equivSpread {
 		c.NonTrivial("equivocation+commit")
 	}
+	if cm > 0 && s.replaySpread {
+		c.NonTrivial("earlier-height-value-replayed+commit")
+	}
 }
 
 // TestPropAgreementN4F1: the bulk configuration, four validators of power 1, one of them Byzantine.
 func TestPropAgreementN4F1(t *testing.T) {
-	stats.Check(t, stats.Budget{Quick: 22000, Thorough: 320000}, "n=4, one Byzantine validator, powers 1; "+simRule,
+	stats.Check(t, stats.Budget{Quick: 20000, Thorough: 320000}, "n=4, one Byzantine validator, powers 1; "+simRule,
 		func(rt *rapid.T, c *stats.Case) { runSim(rt, c, true) })
 }
 
 // TestPropAgreementWeighted: 1..7 validators, drawn voting powers (total = 0,1,2 mod 3), any set of Byzantine
 // validators holding less than a third of the power (possibly a majority by head count), powers may change per height.
 func TestPropAgreementWeighted(t *testing.T) {
-	stats.Check(t, stats.Budget{Quick: 19000, Thorough: 250000}, "n in 1..7, drawn powers, Byzantine power < N/3 (often at the limit); "+simRule,
+	stats.Check(t, stats.Budget{Quick: 17000, Thorough: 250000}, "n in 1..7, drawn powers, Byzantine power < N/3 (often at the limit); "+simRule,
 		func(rt *rapid.T, c *stats.Case) { runSim(rt, c, false) })
 }
